@@ -275,6 +275,19 @@ func (f *fields) delAt(i int) bool {
 	copy(a[i:], a[i+1:])
 	a[len(a)-1] = nil
 	f.a = a[:len(a)-1]
+
+	// elements after i moved down by one, keep the index stored in their
+	// context (used for Path, FlattenedKeys and error messages) in sync
+	for j := i; j < len(f.a); j++ {
+		field := fmt.Sprintf("%d", j)
+		if sub, ok := f.a[j].(cfgSub); ok {
+			sub.c.ctx.field = field
+		} else {
+			ctx := f.a[j].Context()
+			ctx.field = field
+			f.a[j].SetContext(ctx)
+		}
+	}
 	return true
 }
 
